@@ -253,6 +253,17 @@ type Fact struct {
 
 // ExpandCond splits a condition with a known value into atomic facts:
 // !x, x && y (true), x || y (false), parentheses.
+// Facts returns the atomic facts that hold on edge e (the tag of a tagged switch is kept).
+func (e *Edge) Facts() []Fact {
+	if e.Cond == nil {
+		return nil
+	}
+	if e.Tag != nil {
+		return []Fact{{Expr: e.Cond, Tag: e.Tag, Val: e.Val}}
+	}
+	return ExpandCond(e.Cond, e.Val)
+}
+
 func ExpandCond(e ast.Expr, val bool) []Fact {
 	e = ast.Unparen(e)
 	switch x := e.(type) {
